@@ -38,8 +38,9 @@ var decodeRoots = []string{
 // from the entry points but outside this list is reported in the evidence as unverified, never as proved).
 var c01Scope = []string{
 	`^(exif2|exif2/ifds|exif2/ifds/[a-z/]+|exif2/tag|tiff|png|imagetype|meta|meta/utils|meta/canon)\.`,
-	`^imagemeta\.(DecodeTiff|DecodeCR2|DecodeHeif|DecodePng|DecodeJPEG)$`,
+	`^imagemeta\.(DecodeTiff|DecodeCR2|DecodeHeif|DecodePng|DecodeJPEG|Decode|DecodeCR3|PreviewCR3)$`,
 	`^jpeg\.`,
+	`^isobmff\.`,
 }
 
 var hashAndDecodeRoots = append(append([]string{}, decodeRoots...), `^imagehash\.(NewPHash64|NewPHash256|NewPHash64Alt|NewPHash256Alt|NewAHash)$`)
